@@ -11,6 +11,7 @@ import GPy.Common.Basic
 import GPy.C05.Spec
 import GPy.C05.Body
 import GPy.C05.Frame
+import GPy.C05.GenRet
 namespace GPy.C05
 
 /-! ### rendering -/
@@ -253,6 +254,28 @@ def mkZipCase (c : Consumer) (k1 : Kind) (sc1 : Script) (k2 : Kind) (sc2 : Scrip
   let nt := (sc1 ++ sc2).any (fun st => match st with | .item _ => false | _ => true)
   { input := s!"it {c.tok}:zip {k1.tok} {scriptTok sc1} {k2.tok} {scriptTok sc2}", modelV := showOut m, specV := showOut sp,
     tags := if nt then ["nt"] else [] }
+
+/-! ### round 3: every consumer over a generator that RETURNS a value of the rich universe (`Ret.PV`) -/
+
+/-- what the consumers of `Model.lean` can see of a return value: whether it is None (scalars are kept) -/
+def absV : Ret.PV → Val
+  | .none => .none
+  | .int i => .int i
+  | .str s => .str s
+  | _ => .str "obj"
+
+def showOutRet (v : Ret.PV) : Out → String
+  | .err (.stopIteration x) => if x == .none then "E:StopIteration()" else "E:StopIteration(" ++ Ret.PV.show v ++ ")"
+  | o => showOut o
+
+/-- consumer `c` over `DG(…DG(T(v)))` (`depth` ≤ 1 delegators `r = yield from x; return r`) -/
+def mkItRetCase (c : Consumer) (t : Ret.RT) (depth : Nat) (v : Ret.PV) : Case :=
+  let res := t.res v
+  let sc : Script := (t.items.map (fun _ => Step.item (.int 1))) ++ [.stopVal (absV res)]
+  let fuel := sc.length + 4
+  let m := if depth == 0 then c.model (genNext scriptRun) fuel (newGenerator sc)
+    else c.model (genNext (delegRun (genNext scriptRun) (fun s _ => genNext scriptRun s))) fuel (newGenerator (.inl (newGenerator sc)))
+  { input := s!"it {c.tok} retg:{t.tok}:{depth} {v.py}", modelV := showOutRet v m, specV := showOutRet v (c.spec sc), tags := ["nt"] }
 
 /-! ### script enumeration -/
 
@@ -754,6 +777,14 @@ def genMain (tier : String) (seed : Nat) : IO Unit := do
   let thorough := tier == "thorough"
   let maxLen := if thorough then 5 else 4
   let kinds : List Kind := [.user, .gen, .mapped, .getitem, .genexp]
+  -- (0) round 3: the return value of a generator through every reader, throw(type, value), and every consumer
+  Ret.genRetMain tier seed
+  for c in consumers do
+    if c.tok != "yf" then
+      for t in [Ret.RT.plain, .fin, .noyield] do
+        for d in [0:2] do
+          for v in Ret.retVals do
+            IO.println (mkItRetCase c t d v).line
   -- (1) every consumer × producer kind × every script up to maxLen (every position of stop/raise)
   let scInts := scriptsUpTo false maxLen
   let scStrs := scriptsUpTo true maxLen
